@@ -155,6 +155,11 @@ func calculateNextQuota(
 	if next-current > remaining {
 		next = current + remaining
 	}
+	// remaining is zero or negative when the quota is fully allocated or the
+	// global limit has been lowered, keep the minimum limit quota
+	if next < 1 {
+		next = 1
+	}
 
 	next = math.Ceil(next)
 
